@@ -198,8 +198,12 @@ Step0(st, e) ==
            ELSE st
     [] OTHER -> st
 
+\* (the deadlock error of main_thread_only workers is legitimate only for overlapping remote_execs; the programs judged here
+\*  issue them sequentially, so it means an earlier failure disturbed a later execution)
 Step(st, e) ==
-  LET s1 == Step0(st, e) E == <<e.side, e.chan>> IN
+  LET s1 == IF e.ev = "ret" /\ e.res = "RemoteError:deadlock" THEN Flag(Step0(st, e), "C14.false-deadlock-error-after-an-earlier-execution")
+            ELSE Step0(st, e)
+      E == <<e.side, e.chan>> IN
   IF e.ev = "ret" /\ e.op \in {"receive", "waitclose"}
   THEN [s1 EXCEPT !.pending = Put(@, E, Nat0(st.pending, E) - 1)] ELSE s1
 
